@@ -678,6 +678,7 @@ func ruleAlertWiring(r *Run, p *Prog, rule string) {
 	}
 	// (d)
 	if nw := p.Func("diode", "NewWriter"); r.Anchor(nw != nil, rule, "diode.NewWriter") {
+		nw = p.View(nw, "", nil)
 		var par *ssa.Parameter
 		for _, q := range nw.Params {
 			if nt := namedOf(q.Type()); nt != nil && nt.Obj().Name() == "Alerter" {
